@@ -28,6 +28,8 @@ CLAIMED = {
          "Coq proof: protocol legality + prefix invariant; tie: lock-step correspondence with a map-backed lower level"),
  "C14": ("proof", "For every ascending key list, every quota / minimum-key-bytes setting (hence every hop and every truncated index) and every probe, the index window contains the key's position and its lower bound, and point lookups and range starts through the index equal the linear specification and the un-indexed search (C14_window_contains_key, C14_point_lookup_independent, C14_range_start_independent, C14_unindexed_search_correct; fuel sufficiency proved, no bound on sizes). Tie: function-level correspondence through verif exports (index shape, window, findKeyPos, findStartKeyInclusivePos) and API-level agreement of one directory opened under seven index settings.", "4 (C14)",
          "Coq proof: window/lookup theorems for every hop and truncation; tie: function-level and API-level correspondence"),
+ "C17": ("proof", "Lock-set discipline implies that any two conflicting accesses to a covered location are ordered by happens-before, hence no data race, for arbitrary traces with any number of threads and locks (C17_discipline_orders_conflicts, C17_discipline_implies_race_freedom). The access table - every read/write of the lock-protected fields of `collection` and `Store` with the justification found for it - is REGENERATED FROM /repo ON EVERY RUN by the lockscan translator and checked inside Coq (table_ok by vm_compute). Partial and narrow: the link from a justification label to `disciplined` is by inspection of lockscan's rules; copy-on-write publication of segment stacks, the deferred-sort ticket protocol, atomics on stats, histograms and the mmap layer are not covered. When the table stops checking, the concurrent workloads run under the race detector only to attach a replay.", "4 (C17)",
+         "Coq proof (lock-set discipline => DRF) over an access table regenerated from source by a translator on every run"),
  "C18": ("proof", "For every directory state (any number of data files, incomplete newer files) a read-only open emits no create/write/remove effect and opens every file read-only (C18_readonly_open_never_mutates), persistence and compaction under ReadOnly do nothing (C18_readonly_persist_never_mutates), the newest file with a valid footer is served (C18_serves_newest_valid), and a read-write open removes only other data files. Tie: the model's openStore is compared with the recorded OpenFile calls and unlinks of the implementation on directory states produced by real runs and crash-like edits; directory listing and SHA-256 of every file before/after; served content.", "4 (C18)",
          "Coq proof: effect model of openStore/persist under ReadOnly; tie: recorded file operations + directory hashes"),
  "C19": ("proof", "The op/keyLen/valLen word round-trips exactly within the documented limits, and the ErrKeyTooLarge/ErrValueTooLarge guard is exactly the non-aliasing condition (C19_word_roundtrips_within_limits, C19_limit_guard_is_exact, C19_oversize_would_alias, with uint64 wrap-around modelled); a persisted segment loads back bit-exactly for arbitrary byte strings, the rest of the file being arbitrary (C19_persisted_segment_roundtrips); page alignment lemmas. Ordering is bytes.Compare = bcmp throughout the models. Alloc-built batches and DeferredSort/CachePersisted equivalence are covered by the lock-step runs (C01 theorem instantiated at both settings). Tie: function-level words and alignments, API-level limits, byte-level parse of real segment files by the model, lock-step runs with Alloc batches.", "4 (C19)",
